@@ -83,6 +83,7 @@ def canPop : List Item → Bool
 
 /-- client choice: what an idle client thread does next (any program) -/
 inductive Op | async (id : ItemId) | sync (id : ItemId) | worker
+  | override     -- scheduling choice: the pusher issues an override wakeup (see pLinked)
 
 /-- one atomic step of thread `t` at `pc`; `op` is the (arbitrary) client choice used at `idle` -/
 def step (sh : Sh) (t : Tid) (pc : Pc) (op : Op) : List (Sh × Pc) :=
@@ -96,9 +97,17 @@ def step (sh : Sh) (t : Tid) (pc : Pc) (op : Op) : List (Sh × Pc) :=
         .pPushed id sh.items.isEmpty)]
     | .sync id => [(sh, .sTry id)]
     | .worker => [(sh, .wIdle)]
+    | .override => []
   | .pPushed id we => [({ sh with items := linkItem sh.items id }, .pLinked id we)]
   | .pLinked _ we =>
-    if !we then [(sh, .idle)] else
+    -- a push that did not find the list empty may still issue an override wakeup: ENQUEUED without DIRTY
+    -- (a transition found by replaying real traces)
+    if !we then
+      (match op with
+       | .override =>
+         [({ sh with dq := { d with E := d.E || (!d.E && d.O.isNone) },
+                     tokens := sh.tokens + (if (!d.E && d.O.isNone) then 1 else 0) }, .idle)]
+       | _ => [(sh, .idle)]) else
     if sh.items.isEmpty then [({ sh with infl := rm sh.infl t }, .idle)] else
     let enq := !d.E && d.O.isNone
     [({ sh with dq := { d with E := d.E || enq, D := true },
